@@ -425,8 +425,8 @@ CLAIM.update({
 })
 
 PLAN["C17"] = dict(
-    quick=[*shards("TestC17Cells", 8), dict(test="TestC17Rapid", checks=250)],
-    thorough=[*shards("TestC17Cells", 8), *shards("TestC17Rapid", 12, checks=3000)],
+    quick=[*shards("TestC17Cells", 8), dict(test="TestC17Rapid", checks=250), dict(test="TestC17CloseRace")],
+    thorough=[*shards("TestC17Cells", 8), *shards("TestC17Rapid", 12, checks=3000), *shards("TestC17CloseRace", 4)],
 )
 
 LEVEL.update({"C17": "exploration"})
